@@ -185,7 +185,8 @@ def q_op(o):
     if k == "optimise":
         return "Optimise"
     if k == "prop":
-        return "(SetProp %s %s %s %s)" % (o["kind"], coq_z(o["v"]), q_bool(o["v"] < 100), q_s(o["group"]))
+        # valid = the whole component (value string and segmentGroup attribute) meets its facets
+        return "(SetProp %s %s %s %s)" % (o["kind"], coq_z(o["v"]), q_bool(o["v"] < 100 and nmlid(o["group"])), q_s(o["group"]))
     raise ValueError(k)
 
 
@@ -419,9 +420,12 @@ def predicate(case, res):
 
 
 # ----------------------------------------------------------------------------- shrinking
-def shrink(ck, case, key):
+def shrink(ck, case, key, deadline):
+    import time
     cur = {"init": case["init"], "ops": list(case["ops"])}
     for _ in range(30):
+        if time.time() > deadline or len(cur["ops"]) <= 2:
+            break
         r0 = ck.impl("c15_impl.py", {"cases": [cur]}, timeout=120)["results"][0]
         counts = []
         prev = 0
@@ -479,16 +483,17 @@ def run(ck):
                   "natsort.natsorted modelled by the insertion sorts of Groups.v (compared on every case)",
                   "lxml/libxml2 XMLSchema with the bundled NeuroML_<current>.xsd as the schema oracle",
                   "geometry and Point3DWithDiam validation are outside the model (the harness always passes valid points)"]
-    ck.assumptions = ["a group id handed to add_segment / add_unbranched_segments is not one of all/soma_group/axon_group/"
-                      "dendrite_group and is always used with the same (use_convention, seg_type): hypothesis op_ok of the "
-                      "theorem, forced by the proof (C15_mixed_type_refuted); sequences outside are compared, and judged "
-                      "under the known-finding key",
+    ck.assumptions = ["one group id - one role (hypothesis op_ok of the theorem, forced by the proof: C15_mixed_type_refuted): a "
+                      "user group id is always used with the same (use_convention, seg_type), soma_group/axon_group/"
+                      "dendrite_group as group_id only with their own type, 'all' only under the convention; the same "
+                      "discipline is computed independently by the witness search; sequences outside it are compared, and "
+                      "judged under the known-finding key",
                       "validity clause: the model's valid_cell predicts the validate()/XSD verdicts (compared on every "
                       "sequence); the link to the schema itself is C02's, not proved here (C15_valid_partial)",
                       "explicit segment ids are positive integers; property values come from a fixed table of valid/invalid strings"]
     ck.gate_static()
 
-    n = ck.n(360, 3600)
+    n = ck.n(480, 7200)
     cases = [dict(c) for c in CORPUS]
     while len(cases) < n:
         cases.append(gen_case(ck.rng, long=(ck.rng.random() < 0.15)))
@@ -545,10 +550,12 @@ def run(ck):
         for key, what, exp, obs in predicate(c, r):
             if key not in seen:
                 seen[key] = (c, what, exp, obs)
+    import time
+    deadline = time.time() + ck.n(25, 150)   # shrinking is a convenience: bounded
     for key, (c, what, exp, obs) in seen.items():
         small = {"init": c["init"], "ops": c["ops"]}
         try:
-            small = shrink(ck, c, key)
+            small = shrink(ck, c, key, deadline)
             r = ck.impl("c15_impl.py", {"cases": [small]}, timeout=120)["results"][0]
             hit = [b for b in predicate(small, r) if b[0] == key]
             if hit:
